@@ -87,11 +87,14 @@ def evaluate(ids):
         meta["detected_by"] = {p: sorted(v) for p, v in sorted(fired.items())}
         meta["undecided"] = res.get("undecided")
         meta["demoted"] = res.get("demoted")
+        staked = [fn for fn in res.get("demoted", []) if meta["breaks_property"] in res.get("fn_props", {}).get(fn, [])]
+        if staked and not meta["undecided"] and meta["breaks_property"] not in fired:
+            meta["undecided"] = "auto-demoted (left the verifier's subset): " + ", ".join(staked)
         meta["target_property_detected"] = meta["breaks_property"] in fired
         meta["evaluated_at"] = time.strftime("%Y-%m-%dT%H:%M:%SZ", time.gmtime())
         json.dump(meta, open(os.path.join(d, "meta.json"), "w"), indent=1)
         print("%-8s target=%s detected=%s undecided=%s demoted=%s\n         %s" % (
-            sid, meta["breaks_property"], meta["target_property_detected"], res.get("undecided"), res.get("demoted"),
+            sid, meta["breaks_property"], meta["target_property_detected"], meta["undecided"], res.get("demoted"),
             "; ".join("%s: %s" % (p, ",".join(v)) for p, v in meta["detected_by"].items())[:900]))
 
 
